@@ -255,7 +255,10 @@ func runC12(c *Ctx) {
 			const (
 				bAbsent uint = iota
 				bAllowed
+				bWritten
+				bKeepGoing
 			)
+			keepGoing := c.P.Func("cmd/output", "AllowRecoverableError")
 			r := &esp.Rule{Name: "C12.R2"}
 			// the flag policy may sit in an unexported helper that is handed the probe's answer and consults the
 			// permission (overwriteDecision(ctx, path, exists) (write bool, err error)): it is summarised
@@ -278,6 +281,8 @@ func runC12(c *Ctx) {
 					return []esp.Ev{{ID: 1, Name: "AllowOverwrite", ErrIdx: -1, BoolIdx: 0}}
 				case call.Common().StaticCallee() == wf:
 					return []esp.Ev{{ID: 2, Name: "object write", ErrIdx: -1, BoolIdx: -1}}
+				case keepGoing != nil && call.Common().StaticCallee() == keepGoing:
+					return []esp.Ev{{ID: 3, Name: "AllowRecoverableError", ErrIdx: -1, BoolIdx: 0}}
 				}
 				return nil
 			}
@@ -298,8 +303,27 @@ func runC12(c *Ctx) {
 					if ph == esp.AtCall && !s.Has(bAbsent) && !s.Has(bAllowed) {
 						return s, "R2: stored object written where it may exist and overwrite permission was not established"
 					}
+					if ph == esp.AtCall {
+						return s.Set(bWritten), ""
+					}
+				case 3:
+					if ph == esp.Ok {
+						return s.Set(bKeepGoing), ""
+					}
 				}
 				return s, ""
+			}
+			// the gate says "fine" only if it wrote the object or was told to keep going: an existing object in the way
+			// is refused here, in front of everything that follows (the manifest write), not reported afterwards
+			gateFn := g
+			r.AtAnyReturn = func(x *esp.Ctx, fn *ssa.Function, s esp.State, rets []esp.Abs) string {
+				if fn != gateFn || len(rets) == 0 {
+					return ""
+				}
+				if rets[len(rets)-1] != esp.NonZero && !s.Has(bWritten) && !s.Has(bKeepGoing) {
+					return "R2: the gate may report success without having written the object and without --keep_going (an existing object in the way is skipped silently; the caller goes on to record the key in the manifest)"
+				}
+				return ""
 			}
 			e := c.engine(r)
 			e.Run(g, esp.State{})
